@@ -130,7 +130,8 @@ fn fri_verify_layers(
 
         // Compute next layer queries.
         let (next_queries, verify_indices, verify_y_values) =
-            compute_next_layer(&mut queries, &mut target_layer_witness_leaves, params).unwrap();
+            compute_next_layer(&mut queries, &mut target_layer_witness_leaves, params)
+                .map_err(|_| Error::LayerComputationError)?;
 
         // Table decommitment.
         table_decommit(
@@ -157,6 +158,14 @@ pub fn fri_verify(
         return Err(Error::InvalidLength {
             expected: queries.len(),
             actual: decommitment.values.len(),
+        });
+    }
+
+    // One witness per inner layer.
+    if Felt::from(witness.layers.len()) + Felt::ONE != commitment.config.n_layers {
+        return Err(Error::InvalidLength {
+            expected: commitment.inner_layers.len(),
+            actual: witness.layers.len(),
         });
     }
 
@@ -214,6 +223,9 @@ pub enum Error {
 
     #[error("Layer decommitment error")]
     LayerDecommitment(#[from] swiftness_commitment::table::decommit::Error),
+
+    #[error("Layer computation error")]
+    LayerComputationError,
 }
 
 #[cfg(not(feature = "std"))]
@@ -233,4 +245,7 @@ pub enum Error {
 
     #[error("Layer decommitment error")]
     LayerDecommitment(#[from] swiftness_commitment::table::decommit::Error),
+
+    #[error("Layer computation error")]
+    LayerComputationError,
 }
